@@ -6,6 +6,7 @@ package gen
 import (
 	"strconv"
 	"strings"
+	"verif/jsstr"
 )
 
 type Kind int
@@ -201,7 +202,7 @@ func (n *Node) s(sb *strings.Builder) {
 	case KNum:
 		w("(num ", n.Text, ")")
 	case KStr:
-		w("(str ", q(n.Text), ")")
+		w("(str ", jsstr.Meaning(n.Text), ")")
 	case KTpl:
 		w("(tpl ", q(n.Text), ")")
 	case KBool:
